@@ -420,3 +420,105 @@ def line_split_agreement(ctx):
             else:
                 ctx.ok("template.split:" + q, db.where(node), "no line splitting in this template")
     ctx.require(n >= 2, "error templates not found in exceptions.py")
+
+
+def _elem_index(fn, e, depth=3):
+    """(k) when expression e denotes element k of a record tuple: `x[k]`, or a name bound from `x[k]` / by unpacking `x[a:b]`"""
+    if isinstance(e, ast.Subscript) and isinstance(const(e.slice), int) and not isinstance(e.value, ast.Subscript):
+        return const(e.slice)
+    if isinstance(e, ast.Subscript) and isinstance(const(e.slice), int) and isinstance(e.value, ast.Subscript) and isinstance(e.value.slice, ast.Slice):
+        lo = const(e.value.slice.lower) if e.value.slice.lower is not None else 0
+        return lo + const(e.slice) if isinstance(lo, int) else None
+    if isinstance(e, ast.Name) and depth:
+        for s in walk_func(fn):
+            if not isinstance(s, ast.Assign) or len(s.targets) != 1:
+                continue
+            t = s.targets[0]
+            if isinstance(t, ast.Name) and t.id == e.id:
+                return _elem_index(fn, s.value, depth - 1)
+            if isinstance(t, (ast.Tuple, ast.List)):
+                for i, el in enumerate(t.elts):
+                    if isinstance(el, ast.Name) and el.id == e.id and isinstance(s.value, ast.Subscript) and isinstance(s.value.slice, ast.Slice):
+                        lo = const(s.value.slice.lower) if s.value.slice.lower is not None else 0
+                        return lo + i if isinstance(lo, int) else None
+                    if isinstance(el, ast.Name) and el.id == e.id and isinstance(s.value, ast.Name):
+                        return i  # unpacking the whole record
+    return None
+
+
+@rule("C12.template-frame-test", min_instances=2)
+def template_frame_test(ctx):
+    """RichTraceback marks a frame as a template frame by a record element that is None for ordinary frames and the template's line text otherwise; that text may be the empty string (blank template line), so the readers must test identity with None, not truthiness"""
+    db = ctx.db
+    init = db.func("exceptions.RichTraceback._init")
+    # which element holds the template line: the one given None in the plain record and a line of the split template source in the other
+    tuples = [t for g in db.with_helpers(init) for t in walk_func(g) if isinstance(t, ast.Tuple) and len(t.elts) >= 7 and isinstance(t.ctx, ast.Load)]
+    ctx.require(len(tuples) >= 2, "RichTraceback._init: the two record tuples were not found (anchor)")
+    plain = [t for t in tuples if sum(1 for e in t.elts if isinstance(e, ast.Constant) and e.value is None) >= 3]
+    full = [t for t in tuples if t not in plain]
+    ctx.require(plain and full, "RichTraceback._init: plain / template record tuples not told apart (anchor)")
+    ks = []
+    for k, e in enumerate(full[0].elts):
+        if not (k < len(plain[0].elts) and isinstance(plain[0].elts[k], ast.Constant) and plain[0].elts[k].value is None):
+            continue
+        cands = [e]
+        if isinstance(e, ast.Name):
+            cands = [s_.value for s_ in walk_func(init) if isinstance(s_, ast.Assign) and any(isinstance(t, ast.Name) and t.id == e.id for t in s_.targets)]
+        for d in cands:
+            for sub in ast.walk(d):
+                if isinstance(sub, ast.Subscript) and isinstance(sub.value, ast.Name) and not isinstance(sub.slice, ast.Slice):
+                    bdefs = [s_.value for s_ in walk_func(init) if isinstance(s_, ast.Assign) and any(isinstance(t, ast.Name) and t.id == sub.value.id for t in s_.targets)]
+                    if any(isinstance(c_, ast.Call) and isinstance(c_.func, ast.Attribute) and c_.func.attr in ("split", "splitlines") for b in bdefs for c_ in ast.walk(b)):
+                        ks.append(k)
+    ctx.require(ks, "RichTraceback._init: element holding the template line not identified (anchor)")
+    k = ks[-1]
+    ctx.ok("line-element", db.where(full[0]), "template line text is element %d of a record, None for ordinary frames" % k)
+    n = 0
+    for name, fn in sorted(db.methods("exceptions.RichTraceback").items()):
+        if fn is init:
+            continue
+        for g in db.with_helpers(fn):
+            for t in walk_func(g):
+                tests = []
+                if isinstance(t, (ast.If, ast.IfExp, ast.While)):
+                    tests = [t.test]
+                elif isinstance(t, ast.comprehension):
+                    tests = list(t.ifs)
+                for test in tests:
+                    atoms = [test]
+                    while atoms:
+                        a = atoms.pop()
+                        if isinstance(a, ast.BoolOp):
+                            atoms.extend(a.values)
+                        elif isinstance(a, ast.UnaryOp) and isinstance(a.op, ast.Not):
+                            atoms.append(a.operand)
+                        elif isinstance(a, ast.Compare) and len(a.ops) == 1 and isinstance(a.ops[0], (ast.Is, ast.IsNot)) and isinstance(a.comparators[0], ast.Constant) and a.comparators[0].value is None:
+                            if _elem_index(g, a.left) == k:
+                                n += 1
+                                ctx.ok("reader:%s:%s" % (g.name, " ".join(src(a).split())[:40]), db.where(a), "identity test against None")
+                        elif _elem_index(g, a) == k:
+                            n += 1
+                            ctx.violation("reader:%s:truthiness" % g.name, db.where(a),
+                                          "`%s` tests the template line of a record for truth: a template frame whose line is blank (empty string) is taken for an ordinary Python frame and reported with the generated module's file name, line and source" % " ".join(src(a).split())[:60])
+    ctx.require(n >= 1, "no reader of the template-line element found in RichTraceback (anchor)")
+
+
+@rule("C12.module-path-absolute", min_instances=1)
+def module_path_absolute(ctx):
+    """the file name under which a module-directory template's module is registered (ModuleInfo, warning translation) is absolute, like the __file__ / traceback file names the import machinery reports for it"""
+    db = ctx.db
+    init = db.func("template.Template.__init__")
+    joins = [(g, c) for g in db.with_helpers(init) for c in walk_func(g)
+             if isinstance(c, ast.Call) and dotted(c.func) in ("os.path.join", "posixpath.join") and any("module_directory" in src(a) for a in c.args)]
+    ctx.require(joins, "Template.__init__: construction of the module path below module_directory not found (anchor)")
+    ABS = ("os.path.abspath", "os.path.realpath")
+    for g, c in joins:
+        wrapped = any(isinstance(a, ast.Call) and dotted(a.func) in ABS for a in ancestors(c))
+        if not wrapped:
+            st = enclosing_stmt(c)
+            tgt = st.targets[0].id if isinstance(st, ast.Assign) and len(st.targets) == 1 and isinstance(st.targets[0], ast.Name) else None
+            if tgt:
+                wrapped = any(isinstance(a, ast.Call) and dotted(a.func) in ABS and a.args and isinstance(a.args[0], ast.Name) and a.args[0].id == tgt and a.lineno > c.lineno for a in walk_func(g))
+        ctx.check(wrapped, "module-directory-path", db.where(c),
+                  "the module path below module_directory is not made absolute (`%s`): with a relative module_directory the module is registered under a relative name while Python reports its frames and warnings under the absolute one, so they are no longer mapped back to the template" % " ".join(src(enclosing_stmt(c)).split())[:100],
+                  "os.path.abspath applied")
